@@ -114,7 +114,10 @@ func c18Shape() (n, bad int) {
 
 func c18Run(i, n, bad int) {
 	chain := c18Chain(n, bad)
-	root := c18Build(i, chain)
+	// repeated fields on the path: the element alone, or with empty sibling elements before / after / around it
+	sib := verifChoose("siblings", 4)
+	verifReachIf(sib != 0, "repeated-field-with-sibling-elements")
+	root := c18Build(i, chain, sib)
 	verifAssert(root != nil, "obligation-materialised")
 	changed, err := RepairInvalidUTF8(root)
 	verifAction(c18Path(i))
